@@ -5,6 +5,7 @@ CONSTANTS
   Lens <- L24
   OutLens <- O21
   TrailerLen <- NoTrailer
+  DeclaredLen = FALSE
   Limit = 3
   Cuts = TRUE
   MaxWrite = 7
